@@ -167,11 +167,18 @@ func genC25(e *Env) error {
 		if be, ok := n.(*ast.BinaryExpr); ok && be.Op == token.LAND {
 			l, ok1 := be.X.(*ast.BinaryExpr)
 			r, ok2 := be.Y.(*ast.BinaryExpr)
-			if ok1 && ok2 && l.Op == token.GEQ && r.Op == token.LEQ {
+			if ok1 && ok2 && (l.Op == token.GEQ || l.Op == token.GTR) && (r.Op == token.LEQ || r.Op == token.LSS) {
 				a, oka := charLit(l.Y)
 				b, okb := charLit(r.Y)
-				if oka && okb {
-					t.LowerRange = [2]string{a, b}
+				if oka && okb && len(a) == 1 && len(b) == 1 {
+					lo, hi := a[0], b[0]
+					if l.Op == token.GTR {
+						lo++ // c > 'A'  ==  c >= 'B'
+					}
+					if r.Op == token.LSS {
+						hi-- // c < 'Z'  ==  c <= 'Y'
+					}
+					t.LowerRange = [2]string{string(lo), string(hi)}
 					okRange = true
 				}
 			}
